@@ -197,6 +197,9 @@ impl Future for GateWait {
                 true
             } else {
                 i.gates[this.g].wakers.push(cx.waker().clone());
+                if i.gates[this.g].history.len() < 16 {
+                    i.gates[this.g].history.push(cx.waker().clone());
+                }
                 if let Some(op) = this.op {
                     if !i.ops[op].gate_polled {
                         i.stats.gate_suspensions += 1;
@@ -1048,6 +1051,10 @@ impl CallerEnv {
                 vthread::yield_now();
                 w.open_gate(*g as usize);
             }
+            Op::Rewake { g } => {
+                vthread::yield_now();
+                w.rewake(*g as usize);
+            }
             Op::WaitFor { caller, idx, ev } => {
                 self.stage(Stage::WaitFor);
                 let phase = w.with(|i| i.callers[self.gidx].phase);
@@ -1509,6 +1516,10 @@ fn root_main(w: Arc<World>) {
                             vthread::yield_now();
                             w2.open_gate(g as usize);
                         }
+                        WOp::Rewake { g } => {
+                            vthread::yield_now();
+                            w2.rewake(g as usize);
+                        }
                     }
                 }
             });
@@ -1596,6 +1607,7 @@ fn root_main(w: Arc<World>) {
     if live != 0 {
         w.note("C17", "despawn-left-too-many", None, None, format!("after lowering the maximum to 0, despawn_threads_if_overloaded returned with {} live pool threads", live));
     }
+    w.clear_wakers();
     w.with(|i| i.root_stage = "teardown: drop execution-local values".to_string());
     if !panicked.iter().any(|p| *p) {
         vsched::drop_exec_locals();
@@ -1666,6 +1678,9 @@ pub fn run_case(case: &Case, opts: &RunOpts) -> Outcome {
         w.with(|i| {
             for g in i.gates.iter_mut() {
                 for wk in g.wakers.drain(..) {
+                    std::mem::forget(wk);
+                }
+                for wk in g.history.drain(..) {
                     std::mem::forget(wk);
                 }
             }
